@@ -92,8 +92,10 @@ SPEC = {
     "lean_modules": ["RsslVerif.Thm.C02"],
     "theorems": [T + n for n in [
         "tables_as_modelled", "all_positions_descended", "implicit_names_agree",
-        "recurse_no_panic", "recurse_terminates", "close_is_reachability", "closure_order_independent",
-        "required_order_independent", "required_monotone", "args_align_partial", "threaded_exactly_partial",
+        "recurse_no_panic", "recurse_terminates", "measure_bounded_and_increasing", "close_is_reachability",
+        "closure_order_independent", "closure_keeps_keys", "required_order_independent",
+        "requiredP_order_independent", "required_monotone", "args_align_partial", "args_misaligned_with_defaults",
+        "threaded_exactly_partial", "calculateLocal_wf", "closeProgram_ok", "threaded_exactly_program_partial",
         "default_arguments_not_analysed", "global_initialisers_not_analysed"]],
     "harness": "c02",
     "nontrivial": nontrivial,
